@@ -24,6 +24,16 @@ CHECKS = {
              "and the two outputs must be byte-identical.",
         note="Trusted: nothing beyond the interpreter; the signature classes use Reader A only to describe a difference. Bounds in the evidence file.",
         ref="DESIGN.md §2 C02"),
+    "C03": dict(
+        level="exploration",
+        technique="bounded-exhaustive enumeration of re-layouts and of ordered pairs of option sets; byte comparison against the canonical layout / the direct formatting",
+        text="For every token sequence of the alphabet (words, sentence ends, block look-alikes, inline constructs, typography tokens, template "
+             "tags) in every container context: every assignment of separators (one or two spaces, newline, newline + indent) to the gaps not "
+             "adjacent to a tag is compared with the single-space layout (R1, only when Reader A reads both as the same document), and every "
+             "ordered pair of (width, mode) option sets is run as first-then-second pass and compared with the direct formatting (R2); headings "
+             "and table cells with runs of spaces are covered by a separate space.",
+        note="Trusted: Reader A for the meaning-preservation precondition. The newline-next-to-tag exception is implemented as: such gaps only vary between 1 and 2 spaces; histories whose first pass creates a tag-adjacent newline are skipped and counted.",
+        ref="DESIGN.md §2 C03"),
     "C05": dict(
         level="model_checking",
         technique="explicit-state model of the greedy filler, exhaustive trace enumeration + replay of every trace against the implementation",
